@@ -44,7 +44,8 @@ func filterMain(args mon.Args) {
 		{"flag 1", "", []string{"-sflow-type-filter", "1"}, []uint32{1}},
 		{"flag 1,2", "", []string{"-sflow-type-filter", "1,2"}, []uint32{1, 2}},
 		{"flag 2,1", "", []string{"-sflow-type-filter", "2,1"}, []uint32{2, 1}},
-		{"flag given twice", "", []string{"-sflow-type-filter", "7", "-sflow-type-filter", "1"}, []uint32{7, 1}},
+		{"flag given twice", "", []string{"-sflow-type-filter", "2", "-sflow-type-filter", "1"}, []uint32{2, 1}},
+		{"flag given three times", "", []string{"-sflow-type-filter", "1", "-sflow-type-filter", "7,8", "-sflow-type-filter", "3"}, []uint32{1, 7, 8, 3}},
 		{"file [2]", "[2]", nil, []uint32{2}},
 		{"file [5, 1]", "[5, 1]", nil, []uint32{5, 1}},
 		{"file [3, 4, 1]", "[3, 4, 1]", nil, []uint32{3, 4, 1}},
@@ -53,8 +54,14 @@ func filterMain(args mon.Args) {
 		{"flag 4095,2", "", []string{"-sflow-type-filter", "4095,2"}, []uint32{4095, 2}},
 	}
 	if !run.Thorough() {
-		cfgs = append(cfgs[:1], cfgs[3:]...)
-		cfgs = []fcfg{cfgs[0], cfgs[2], cfgs[4], cfgs[6], cfgs[8], cfgs[9]}
+		keep := map[string]bool{"no filter": true, "flag 2,1": true, "flag given twice": true, "file [2]": true, "file [3, 4, 1]": true, "file [2] + flag 1": true, "flag 4095,2": true}
+		var q []fcfg
+		for _, c := range cfgs {
+			if keep[c.name] {
+				q = append(q, c)
+			}
+		}
+		cfgs = q
 	}
 	var totalSent, totalLines int64
 	for ci, cf := range cfgs {
